@@ -97,7 +97,7 @@ contract Shard.UpdateExtraConfig
 // needUpdate: false only if the plan has exactly the cached keys, is not empty, and every planned state equals the cached one
 contract Shard.needUpdate
   requires r != nil && (forall h, t in targets :: t != nil)
-  ensures[C01,C05] @no_update_only_if_nothing_changed !result ==> (len(targets) != 0 && keys(targets) == keys(r.scraping)
+  ensures[C01,C05,C06] @no_update_only_if_nothing_changed !result ==> (len(targets) != 0 && keys(targets) == keys(r.scraping)
         && (forall h, t in targets :: r.scraping[h] != nil && r.scraping[h].TargetState == t.TargetState))
   ensures[C08] @unchanged_plan_is_not_resent (len(targets) != 0 && keys(targets) == keys(r.scraping) && (forall h, t in targets :: r.scraping[h] != nil && r.scraping[h].TargetState == t.TargetState)) ==> !result
   modifies nothing
@@ -122,7 +122,7 @@ contract Shard.UpdateTarget
   ensures r.gGets == old(r.gGets) && r.gPostCfg == old(r.gPostCfg) && r.gPostExtra == old(r.gPostExtra)
   ensures[C01] @posted_list_contains_the_request (result == nil && r.gPostTargets != old(r.gPostTargets)) ==> (forall h in gListHashes[request.Targets] :: h in r.gList)
   ensures[C01] @no_post_keeps_the_list r.gPostTargets == old(r.gPostTargets) ==> r.gList == old(r.gList)
-  ensures[C01] @failed_post_keeps_the_list result != nil ==> r.gList == old(r.gList)
+  ensures[C01,C06] @failed_post_keeps_the_list result != nil ==> r.gList == old(r.gList)
   ensures[C05] @the_request_itself_is_what_the_sidecar_gets (result == nil && r.gPostTargets != old(r.gPostTargets)) ==> r.gLastPosted == request
   ensures (result != nil || r.gPostTargets == old(r.gPostTargets)) ==> r.gLastPosted == old(r.gLastPosted)
   modifies Shard.gPostTargets at {r}, Shard.gList at {r}, Shard.gLastPosted at {r}, gPostedKeys
